@@ -196,3 +196,13 @@ Qed.
 (** frame and mipmap exchanged: level 1 of frame 0 is looked up as level 0 of frame 1 *)
 Theorem swapped_key_refuted : key_ok [KMip; KSide; KFrame] = false /\ key_of [KMip; KSide; KFrame] 0 0 1 0 = [1; 0; 0].
 Proof. vm_compute. split; reflexivity. Qed.
+
+(** * clear_mipmaps *)
+(** exactly the levels smaller than level [after] (index > after) are erased; level [after] and everything larger is kept *)
+Theorem clear_after_exact : forall c, clear_after_ok c = true -> forall after m, clears c after m = true <-> after < m.
+Proof.
+  intros c H after m. unfold clear_after_ok in H. apply cmp_eqb_eq in H. subst c. unfold clears. cbn. rewrite Z.ltb_lt. tauto.
+Qed.
+(** with [>=] the default clear_mipmaps() (after = 0) erases the largest level too: nothing is left to regenerate from *)
+Theorem clear_after_ge_refuted : clear_after_ok CGe = false /\ clears CGe 0 0 = true.
+Proof. vm_compute. split; reflexivity. Qed.
